@@ -7,7 +7,7 @@ initialisation* and take shortcuts the reflection path (`Pb.initMsg`, Model/Msg.
                    graph with a global cache holding a `bool` or an in-progress marker;
     `needsFixed` = the repaired walk of /verif/fixes/needsinitcheck-cycle.diff;
 (b) `initFastMsg`= `checkInitializedPointer` and the `isInit` coder table, pruned by `needsInitCheck`;
-(c) `decMsgF`    = the `initialized` flag computed while decoding (decode.go `unmarshalPointerEager`,
+(c) `flagLoop` / `decFlag` = the `initialized` flag computed while decoding (decode.go `unmarshalPointerEager`,
                    codec_field.go `consumeMessageInfo`/`consumeMessageSliceInfo`, codec_map.go
                    `consumeMapOfMessage`), layered over the decoder of Model/Msg.lean.
 
@@ -311,5 +311,11 @@ end
 `UnmarshalInitialized` flag (`proto.Unmarshal` skips `checkInitialized` when it is set) -/
 def decFlag (S : Schema) (nd : Nat → Bool) (rule : MapRule) (mi : Nat) (b : List Byte) : Except DErr (Msg × Bool) :=
   (unmarshal S mi b).map fun m => (m, flagLoop S nd rule (fuelFor b) mi true [] b)
+
+/-- `proto.UnmarshalOptions{Merge: true}.Unmarshal(b, m0)` on the fast path: the flag is computed from the
+input alone -/
+def decFlagInto (S : Schema) (nd : Nat → Bool) (rule : MapRule) (mi : Nat) (m0 : Msg) (b : List Byte) :
+    Except DErr (Msg × Bool) :=
+  (unmarshalInto S mi m0 b 10000 false).map fun m => (m, flagLoop S nd rule (fuelFor b) mi true [] b)
 
 end FastInit
